@@ -429,5 +429,24 @@ def run_case(case):
                 what = "input-path" if got is not None and got.strip() == pin else "other"
                 out.append(viol("cli-%s:differs:%s" % (tag, what), "transformer.main wrote something else than the library returns for the file's content",
                                 (got or "<no file>")[:200], res_text[:200]))
+            elif res_text == text:
+                # nothing was edited (absent category / item): the same request on the same document with another END OF FILE - blank lines, trailing
+                # blanks, no final newline - must again write exactly what the library returns for that content
+                for tname, tail in (("blank-lines", "\n\n\n"), ("trailing-blanks", "   \n"), ("no-final-newline", "")):
+                    t2 = text.rstrip("\n") + tail
+                    lib2 = observe(transformer.copy_from_to, t2, cat, case["src"], case["dst"]) if op == "copy" else observe(transformer.replace_value, t2, cat, case["column"], alpha)
+                    if lib2[0] == "exc":
+                        continue
+                    want2 = lib2[1] if op == "copy" else lib2[1][0]
+                    with open(pin, "w") as f:
+                        f.write(t2)
+                    if os.path.exists(pout):
+                        os.remove(pout)
+                    rc2 = observe(run_cli, argv)
+                    got2 = open(pout).read() if rc2[0] == "ok" and os.path.exists(pout) else None
+                    if got2 != want2:
+                        out.append(viol("cli-%s:differs:end-of-file" % tag, "transformer.main on a document ending in %s wrote something else than the library returns for that content" % tname,
+                                        repr((got2 or "<no file>")[-60:]), repr(want2[-60:])))
+                        break
         outcome += "+cli"
     return dict(nontrivial=changed, key=[text, op, cat, case.get("src"), case.get("dst"), case.get("column"), case.get("alphabet")], outcome=outcome, violations=out)
